@@ -222,3 +222,74 @@ seeded("c16-hook-on-noop-path", ["C16", "C02"], both(
     "        self._pre_attach(value)\n        if parent is not value:\n            self.__check_loop(value)\n"), ["H1", "E1"])
 seeded("c16-post-hook-exception-swallowed", ["C16"], both(
     "            self.__attach(value)\n", "            try:\n                self.__attach(value)\n            except Exception:\n                pass\n"), ["H3"])
+
+# ------------------------------------------------------------------ C07 / C08
+RS = "anytree/resolver.py"
+seeded("c07-none-guard-removed-in-get", ["C07"], [(RS, "                node = self.__get(node, part)\n                if node is None:\n                    return None\n",
+                                                   "                node = self.__get(node, part)\n")], ["R2"])
+seeded("c07-relax-guard-removed-from-raise", ["C07"], [(RS, """                if parent is None:
+                    if self.relax:
+                        return None
+                    raise RootResolverError(node)
+""", """                if parent is None:
+                    raise RootResolverError(node)
+""")], ["R1", "R2"])
+seeded("c07-relaxed-root-mismatch-returns-node", ["C07", "C08"], [(RS, """            if not cmp_(rootpart, parts[0]):
+                if self.relax:
+                    return None, None
+""", """            if not cmp_(rootpart, parts[0]):
+                if self.relax:
+                    return node, parts
+""")], ["R5"])
+seeded("c07-start-guard-dropped", ["C07"], [(RS, "        if node is None and self.relax:\n            return None\n", "")], ["R2"])
+seeded("c07-wrong-error-class-up", ["C07"], [(RS, "                    raise RootResolverError(node)\n                node = parent\n",
+                                              "                    raise ChildResolverError(node, part, self.pathattr)\n                node = parent\n")], ["R3"])
+seeded("c07-getattr-without-default", ["C07", "C08"], [(RS, "return str(getattr(node, name, None))", "return str(getattr(node, name))")], ["R4"])
+seeded("c07-index-without-guard", ["C07", "C08"], [(RS, "        if path.startswith(sep):\n", "        if path:\n")], ["R4"])
+benign("c07-relax-guard-as-conjunct", ["C07"], [(RS, """                if parent is None:
+                    if self.relax:
+                        return None
+                    raise RootResolverError(node)
+""", """                if parent is None and self.relax:
+                    return None
+                if parent is None:
+                    raise RootResolverError(node)
+""")])
+benign("c07-none-guard-flipped", ["C07"], [(RS, "                if node is None:\n                    return None\n",
+                                            "                if None is node:\n                    return node\n")])
+
+seeded("c08-no-escape", ["C08"], [(RS, "                re_pat += re.escape(char)\n", "                re_pat += char\n")], ["G1"])
+seeded("c08-no-end-anchor", ["C08"], [(RS, 'return "(?ms)" + re_pat + r"\\Z"', 'return "(?ms)" + re_pat')], ["G1"])
+seeded("c08-dollar-anchor", ["C08"], [(RS, 'return "(?ms)" + re_pat + r"\\Z"', 'return "(?ms)" + re_pat + "$"')], ["G1"])
+seeded("c08-star-as-plus", ["C08"], [(RS, '                re_pat += ".*"\n', '                re_pat += ".+"\n')], ["G1"])
+seeded("c08-search-instead-of-match", ["C08"], [(RS, "return re_pat.match(name) is not None", "return re_pat.search(name) is not None")], ["G1"])
+seeded("c08-key-without-ignorecase", ["C08"], [(RS, "        k = (pat, self.ignorecase)\n", "        k = pat\n")], ["G2"])
+seeded("c08-clear-after-store", ["C08"], [(RS, """            if len(Resolver._match_cache) >= _MAXCACHE:
+                Resolver._match_cache.clear()
+            flags = 0
+            if self.ignorecase:
+                flags |= re.IGNORECASE
+            Resolver._match_cache[k] = re_pat = re.compile(res, flags=flags)
+""", """            flags = 0
+            if self.ignorecase:
+                flags |= re.IGNORECASE
+            Resolver._match_cache[k] = re_pat = re.compile(res, flags=flags)
+            if len(Resolver._match_cache) >= _MAXCACHE:
+                Resolver._match_cache.clear()
+            re_pat = Resolver._match_cache[k]
+""")], ["G3"])
+seeded("c08-dedupe-by-equality", ["C08", "C17"], [(RS, "if not any(match is seen for seen in matches):", "if match not in matches:")], ["G5", "T2"])
+seeded("c08-handler-too-broad", ["C08"], [(RS, "                except ChildResolverError:\n", "                except Exception:\n")], ["G4"])
+seeded("c08-cache-mutated-elsewhere", ["C08"], [(RS, "        self.relax = relax\n", "        self.relax = relax\n        Resolver._match_cache.clear()\n")], ["G3"])
+benign("c08-translate-join", ["C08"], [(RS, '        return "(?ms)" + re_pat + r"\\Z"', '        body = re_pat\n        return "(?ms)" + body + r"\\Z"')])
+
+seeded("c08-glob-relax-guard-removed", ["C08"], [(RS, """            if parent is None:
+                if self.relax:
+                    return []
+                raise RootResolverError(node)
+            return self.__glob(parent, remainder)
+""", """            if parent is None:
+                raise RootResolverError(node)
+            return self.__glob(parent, remainder)
+""")], ["R1", "R2"])
+seeded("c08-glob-strict-raise-ignores-relax", ["C08"], [(RS, "if not matches and not Resolver.is_wildcard(name) and not self.relax:", "if not matches and not Resolver.is_wildcard(name):")], ["R1", "R2"])
